@@ -196,7 +196,7 @@ func c08holdsAny(f *ssa.Function, atoms ...core.Atom) []core.Edge {
 
 func c08(r *core.Run) {
 	p := r.P
-	r.Explanation = "Decides on the current source: (Go side of the period limiter) TakeCtx evaluates the periodScript constant with KEYS = [keyPrefix+key] and ARGV positions that the script itself (parsed) reads as the limit and the window, fed with quota and calcExpireSeconds(); script replies 0/1/2 map to OverQuota/Allowed/HitQuota and nothing else yields a nil error; calcExpireSeconds ≡ period − (unix+zoneOffset) mod period under align, else period. (Lua, parsed from the constants) the period script increments KEYS[1] by 1, sets the expiry only when the counter is 1, and answers 1 below the limit, 2 at the limit, 0 above; the token script refills min(capacity, last + max(0, now − ts)·rate), grants iff filled ≥ requested, debits only when granted and re-sets both keys with the same ttl; its ARGV roles are fed with rate, burst, now.Unix(), n and its KEYS with the token and timestamp keys. (Fallback) the in-process limiter answers iff redisAlive is 0 or Redis failed with an error other than redis.Nil / context errors, in which case the monitor is started first; redisAlive goes to 0 only in startMonitor before the monitor goroutine is spawned, once (monitorStarted under rescueLock), and back to 1 only after Ping() succeeded; the rescue limiter is built from the same rate and burst."
+	r.Explanation = "Decides on the current source: (Go side of the period limiter) TakeCtx evaluates the periodScript constant with KEYS = [keyPrefix+key] and ARGV positions that the script itself (parsed) reads as the limit and the window, fed with quota and calcExpireSeconds(); script replies 0/1/2 map to OverQuota/Allowed/HitQuota and nothing else yields a nil error; calcExpireSeconds ≡ period − (unix+zoneOffset) mod period under align, else period. (Lua, parsed from the constants) the period script increments KEYS[1] by 1, sets the expiry only when the counter is 1, and answers 1 below the limit, 2 at the limit, 0 above; the token script refills min(capacity, last + max(0, now − ts)·rate), grants iff filled ≥ requested, debits only when granted, re-sets both keys with the same ttl and stores max(now, ts) as the new refill time (never older than the one read); its ARGV roles are fed with rate, burst, now.Unix(), n and its KEYS with the token and timestamp keys. (Fallback) the in-process limiter answers iff redisAlive is 0 or Redis failed with an error other than redis.Nil / a context error of a caller whose own context is done (an error matching DeadlineExceeded/Canceled while ctx.Err() is nil - a dial/IO timeout - is an outage and falls back), in which case the monitor is started first; redisAlive goes to 0 only in startMonitor before the monitor goroutine is spawned, once (monitorStarted under rescueLock), and back to 1 only after Ping() succeeded; the rescue limiter is built from the same burst and exactly the same rate (Limit(rate), not an interval rounded to nanoseconds)."
 	r.NotDecided = "admission counts over time and call histories, Redis' TTL behaviour, atomicity of script evaluation, outage patterns; Lua semantics beyond the parsed subset (numbers vs strings coercion by tonumber is trusted)."
 	r.Trusted = append(r.Trusted, "a 300-line parser for the Lua subset used by the two scripts (local, assignment, if/elseif/else, calls, arithmetic, comparison, return); unknown syntax → unresolved")
 
@@ -511,7 +511,7 @@ func c08(r *core.Run) {
 			}
 		}
 	})
-	r.Check("D3/K12/token-script", "token script: filled = min(capacity, last + max(0, now − ts)·rate) with last defaulting to capacity and ts to 0 when the keys are absent; allowed = filled ≥ requested is the reply; the stored level is filled − requested when allowed, else filled; both keys are re-set with setex and the same ttl = floor(capacity/rate·2); the timestamp key stores now", func(o *core.O) {
+	r.Check("D3/K12/token-script", "token script: filled = min(capacity, last + max(0, now − ts)·rate) with last defaulting to capacity and ts to 0 when the keys are absent; allowed = filled ≥ requested is the reply; the stored level is filled − requested when allowed, else filled; both keys are re-set with setex and the same ttl = floor(capacity/rate·2); the timestamp key stores max(now, ts): the stored refill time is never older than the one read (evaluated on concrete now/ts pairs, any spelling) [a script that stores plain now lets a caller with an older second rewind the refill clock, and the next caller is credited rate × the same span again: more than burst + rate × t admissions between s and s+t]", func(o *core.O) {
 		if !o.Need(reserve != nil, "TokenLimiter.reserveN") {
 			return
 		}
@@ -711,7 +711,7 @@ func c08(r *core.Run) {
 		o.Site(n, "arguments handed down by the token limiter's wrappers")
 	})
 
-	r.Check("D4/K2/rescue-iff-redis-down", "reserveN: when atomic redisAlive == 0 the script is not evaluated and the answer is rescueLimiter.AllowN(now, n); after EvalCtx, false is answered only under err == redis.Nil or errors.Is(err, DeadlineExceeded/Canceled), and the fallback is reachable only where both errors.Is tests failed; every other failure (err != nil, or a reply that is not int64) first calls startMonitor and then answers rescueLimiter.AllowN(now, n); the script's verdict code == 1 is used only when err == nil", func(o *core.O) {
+	r.Check("D4/K2/rescue-iff-redis-down", "reserveN: when atomic redisAlive == 0 the script is not evaluated and the answer is rescueLimiter.AllowN(now, n); after EvalCtx (decided by evaluating reserveN from the evaluation on in each scenario: the error is nil / redis.Nil / matches context.DeadlineExceeded / matches context.Canceled / is something else, the caller's ctx.Err() is nil / non-nil, the reply is / is not an int64), false is answered exactly for err == redis.Nil and for an error that matches a context error WHILE the caller's own context is done (ctx.Err() != nil), and then neither the monitor is started nor the in-process limiter asked [a caller's expired context is not an outage]; every other failure - including an error that matches DeadlineExceeded/Canceled while the caller's context is live: net's dial/IO timeout is such an error, and it means Redis is unreachable - and a reply that is not int64 first calls startMonitor and then answers rescueLimiter.AllowN(now, n) [otherwise the limiter refuses every request for the length of the outage instead of limiting in process]; the script's verdict code == 1 is used only when err == nil", func(o *core.O) {
 		if !o.Need(reserve != nil, "TokenLimiter.reserveN") || !o.Need(lim.has("redisAlive", "rescueLimiter"), "the limiter's redisAlive / rescueLimiter fields") {
 			return
 		}
@@ -765,23 +765,11 @@ func c08(r *core.Run) {
 			s, ok := core.ConstString(v)
 			return ok && s == "redis: nil"
 		}
-		errIs := func(name string) core.Atom {
-			return core.BoolVal(func(v ssa.Value) bool {
-				c, ok := v.(*ssa.Call)
-				return ok && core.CalleeName(c) == "errors.Is" && isErr(c.Call.Args[0]) && core.IsGlobal("context", name)(c.Call.Args[1])
-			})
-		}
 		errNil := core.Cmp(token.EQL, isErr, core.IsNil)
-		benign := []core.Atom{core.Cmp(token.EQL, isErr, isRNil), errIs("DeadlineExceeded"), errIs("Canceled")}
 		isFalse := retOf(func(v ssa.Value) bool {
 			c, ok := v.(*ssa.Const)
 			return ok && c.Value != nil && c.Value.String() == "false"
 		})
-		cut := c08holdsAny(f, benign...)
-		o.Site(len(cut))
-		if wv, found := core.Reach(core.Q{From: []core.At{core.After(ev)}, Target: isFalse, Cut: core.CutSet(cut)}); found {
-			o.Fail(p.InstrPos(wv), "a request is refused (false) after a Redis failure that is neither redis.Nil nor a context error: the limiter stops admitting instead of falling back")
-		}
 		isStart := func(in ssa.Instruction) bool {
 			c := core.AsCall(in)
 			return c != nil && startMon != nil && c.Common().StaticCallee() == startMon
@@ -791,16 +779,124 @@ func c08(r *core.Run) {
 		if len(hErr) == 0 {
 			o.Fail(p.InstrPos(ev), "reserveN never tests err != nil after the evaluation")
 		}
-		// conversely: a context error is the caller's problem, not an outage - the monitor is started
-		// (and the in-process limiter answers) only where errors.Is(err, X) was found false for both
-		for _, name := range []string{"DeadlineExceeded", "Canceled"} {
-			a := errIs(name)
-			if core.EdgeCount(f, a) == 0 {
-				o.Fail(p.InstrPos(ev), "reserveN never tests errors.Is(err, context.%s): an expired or cancelled caller context is taken for a Redis outage and switches every caller to the in-process limiter", name)
+		// Which failures are refused and which fall back: evaluated, not matched. reserveN is
+		// interpreted from the evaluation on with the facts of one scenario pinned (redisAlive = 1;
+		// the error nil or not; err == redis.Nil; errors.Is(err, context.DeadlineExceeded / Canceled /
+		// the caller's ctx.Err()); ctx.Err() nil or not; the reply an int64 or not); what is not pinned
+		// is unknown and followed both ways. Every return reached in the scenario must be of the
+		// expected class.
+		isCtxErrCall := func(v ssa.Value) bool {
+			c, ok := core.Forward(v).(*ssa.Call)
+			if !ok || !c.Call.IsInvoke() || c.Call.Method.Name() != "Err" {
+				return false
+			}
+			k := w.paramIndex(core.Forward(c.Call.Value))
+			return k >= 1 && k == w.paramIndex(core.Forward(ev.Call.Args[1]))
+		}
+		type c08rescueV struct{}
+		type scen struct {
+			what                        string
+			errNil, isRNil, isDE, isCan bool
+			ctxDone                     bool
+			ok                          int // 1 reply is int64, 0 it is not, -1 not pinned
+			fallback                    bool
+			why                         string
+		}
+		scens := []scen{
+			{"the script refused (err == redis.Nil)", false, true, false, false, false, -1, false, ""},
+			{"the caller's deadline expired (errors.Is(err, context.DeadlineExceeded), ctx.Err() != nil)", false, false, true, false, true, -1, false, ""},
+			{"the caller cancelled (errors.Is(err, context.Canceled), ctx.Err() != nil)", false, false, false, true, true, -1, false, ""},
+			{"Redis timed out while the caller's context is live (errors.Is(err, context.DeadlineExceeded) holds - net's dial/IO timeout matches it - but ctx.Err() == nil)", false, false, true, false, false, -1, true,
+				"an unreachable Redis is taken for the caller's own deadline: every request is refused for the length of the outage and the in-process bucket is never used"},
+			{"the Redis operation was cancelled while the caller's context is live (errors.Is(err, context.Canceled) holds but ctx.Err() == nil)", false, false, false, true, false, -1, true,
+				"a failure of the Redis connection is taken for the caller's own cancellation: the request is refused instead of being answered by the in-process bucket"},
+			{"Redis failed with an error that is neither redis.Nil nor a context error (caller's context live)", false, false, false, false, false, -1, true,
+				"the limiter stops admitting instead of falling back"},
+			{"Redis failed with an error that is neither redis.Nil nor a context error (caller's context done)", false, false, false, false, true, -1, true,
+				"the limiter stops admitting instead of falling back"},
+			{"the reply is not an int64", true, false, false, false, false, 0, true,
+				"the limiter stops admitting instead of falling back"},
+		}
+		nCtxErr := len(core.Instrs(f, func(in ssa.Instruction) bool { v, ok := in.(ssa.Value); return ok && isCtxErrCall(v) }))
+		for _, sc := range scens {
+			sc := sc
+			it := c08exploreWatch(f, func(v ssa.Value) (any, bool) {
+				b2c := func(b bool) (any, bool) { return constant.MakeBool(b), true }
+				switch x := v.(type) {
+				case *ssa.Extract:
+					if c, i := core.ResultOf(x); c == ev && i == 1 {
+						if sc.errNil {
+							return c08nilV{}, true
+						}
+						return c08nonNilV{}, true
+					}
+					if ta, isTA := x.Tuple.(*ssa.TypeAssert); isTA && ta.CommaOk && sc.ok >= 0 {
+						if c, i := core.ResultOf(core.Forward(ta.X)); c == ev && i == 0 && x.Index == 1 {
+							return b2c(sc.ok == 1)
+						}
+					}
+				case *ssa.BinOp:
+					if (x.Op == token.EQL || x.Op == token.NEQ) && ((isErr(x.X) && isRNil(x.Y)) || (isErr(x.Y) && isRNil(x.X))) {
+						return b2c(sc.isRNil == (x.Op == token.EQL))
+					}
+				case *ssa.Call:
+					switch {
+					case isLoadAlive(x):
+						return constant.MakeInt64(1), true
+					case isRescue(x):
+						return c08rescueV{}, true
+					case isCtxErrCall(x):
+						if sc.ctxDone {
+							return c08nonNilV{}, true
+						}
+						return c08nilV{}, true
+					case core.CalleeName(x) == "errors.Is" && len(x.Call.Args) == 2 && isErr(x.Call.Args[0]):
+						switch t := x.Call.Args[1]; {
+						case core.IsGlobal("context", "DeadlineExceeded")(t):
+							return b2c(sc.isDE)
+						case core.IsGlobal("context", "Canceled")(t):
+							return b2c(sc.isCan)
+						case isCtxErrCall(t): // errors.Is(err, ctx.Err()): the error is the caller's own context error
+							return b2c(sc.ctxDone && (sc.isDE || sc.isCan))
+						case isRNil(t):
+							return b2c(sc.isRNil)
+						}
+					}
+				}
+				return nil, false
+			}, func(in ssa.Instruction) bool { return isStart(in) })
+			if it.failed != "" {
+				o.Unres("reserveN when %s: %s", sc.what, it.failed)
 				continue
 			}
-			if wv, found := core.Reach(core.Q{From: []core.At{core.After(ev)}, Target: core.Or(isStart, retOf(isRescue)), Cut: core.CutSet(func() []core.Edge { _, fl := core.EdgesOf(f, a); return fl }())}); found {
-				o.Fail(p.InstrPos(wv), "the fallback (startMonitor / rescueLimiter) is reachable after the evaluation without errors.Is(err, context.%s) having been found false: a caller's own context error is taken for a Redis outage, redisAlive drops to 0 and a full in-process bucket answers while Redis is healthy", name)
+			o.Site(len(it.rets))
+			if len(it.rets) == 0 {
+				o.Fail(p.InstrPos(ev), "when %s reserveN has no way to return", sc.what)
+			}
+			for _, rt := range it.rets {
+				if len(rt.vals) != 1 {
+					continue
+				}
+				cv, isC := rt.vals[0].(constant.Value)
+				refused := isC && cv.Kind() == constant.Bool && !constant.BoolVal(cv)
+				_, rescued := rt.vals[0].(c08rescueV)
+				started := len(rt.trace) > 0
+				switch {
+				case sc.fallback && refused:
+					hint := ""
+					if nCtxErr == 0 && !sc.errNil && (sc.isDE || sc.isCan) {
+						hint = " (reserveN never consults the caller's ctx.Err(): whether a context error is the caller's own cannot be told from the error alone)"
+					}
+					o.Fail(p.InstrPos(rt.ret), "when %s the request is refused (false): %s%s", sc.what, sc.why, hint)
+				case sc.fallback && rescued && !started:
+					// reported by the startMonitor-precedes-fallback check below
+				case sc.fallback && !rescued:
+					o.Fail(p.InstrPos(rt.ret), "when %s reserveN answers %s instead of rescueLimiter.AllowN(now, n): %s", sc.what, w.shape(core.Result(rt.ret, 0), nil), sc.why)
+				case !sc.fallback && (rescued || started):
+					o.Fail(p.InstrPos(rt.ret), "when %s the fallback is taken (startMonitor called: %v, in-process limiter answers: %v): a refusal by the script / a caller's own context error is taken for a Redis outage, redisAlive drops to 0 and a full in-process bucket answers while Redis is healthy", sc.what, started, rescued)
+				case !sc.fallback && !refused:
+					o.Fail(p.InstrPos(rt.ret), "when %s reserveN answers %s, expected false", sc.what, w.shape(core.Result(rt.ret, 0), nil))
+				}
 			}
 		}
 		// verdict only under err == nil and a successful assertion
@@ -1016,7 +1112,7 @@ func c08(r *core.Run) {
 			o.Fail("lib/limit/tokenlimit.go", "redisAlive is never set back to 1: the limiter never returns to Redis")
 		}
 	})
-	r.Check("D4/K8/rescue-same-rate-burst", "NewTokenLimiter stores rate and burst unchanged, starts with redisAlive = 1, and builds the in-process limiter as NewLimiter(Every(time.Second / rate), burst) from the same two parameters", func(o *core.O) {
+	r.Check("D4/K8/rescue-same-rate-burst", "NewTokenLimiter stores rate and burst unchanged, starts with redisAlive = 1, and builds the in-process limiter with exactly the configured rate and burst: NewLimiter(Limit(rate), burst), the rate reaching it through value-preserving conversions only [the script refills rate tokens per second; a limit derived from an interval - Every(time.Second / rate) - is rounded to whole nanoseconds: rate 300000 refills at 300030/s, rates above 1e9 give an unlimited limiter, so the fallback is not a bucket of the same rate]", func(o *core.O) {
 		if !o.Need(newTok != nil, "limit.NewTokenLimiter") {
 			return
 		}
@@ -1029,7 +1125,7 @@ func c08(r *core.Run) {
 			"burst":         "p1",
 			"store":         "p2",
 			"redisAlive":    "1",
-			"rescueLimiter": "golang.org/x/time/rate.NewLimiter(golang.org/x/time/rate.Every((1000000000/p0)),p1)",
+			"rescueLimiter": "golang.org/x/time/rate.NewLimiter(p0,p1)",
 		}
 		for fld, exp := range want {
 			sts := core.StoresToField(newTok, lim.fld(fld))
@@ -1039,7 +1135,35 @@ func c08(r *core.Run) {
 				continue
 			}
 			if got := w.shape(sts[0].Val, nil); got != exp {
-				o.Fail(p.InstrPos(sts[0]), "TokenLimiter.%s is initialised with %s, expected %s (p0 = rate, p1 = burst)", fld, got, exp)
+				why := ""
+				if fld == "rescueLimiter" && strings.Contains(got, "rate.Every(") {
+					why = ": a limit derived from an interval is rounded to whole nanoseconds, so the in-process bucket refills faster than rate tokens per second (300000 → 300030/s; above 1e9 unlimited)"
+				}
+				o.Fail(p.InstrPos(sts[0]), "TokenLimiter.%s is initialised with %s, expected %s (p0 = rate, p1 = burst)%s", fld, got, exp, why)
+				continue
+			}
+			if fld != "rescueLimiter" {
+				continue
+			}
+			// the conversions between the rate parameter and the limiter's Limit keep the value:
+			// int → (int | int64 | float64 | Limit), nothing narrower in between
+			if c, ok := core.Forward(sts[0].Val).(*ssa.Call); ok && len(c.Call.Args) == 2 {
+				for v := core.Forward(c.Call.Args[0]); ; {
+					var x ssa.Value
+					switch y := v.(type) {
+					case *ssa.Convert:
+						x = y.X
+					case *ssa.ChangeType:
+						x = y.X
+					}
+					if x == nil {
+						break
+					}
+					if bt, isB := v.Type().Underlying().(*types.Basic); !isB || (bt.Kind() != types.Int && bt.Kind() != types.Int64 && bt.Kind() != types.Float64) {
+						o.Fail(p.InstrPos(sts[0]), "the rate reaches the in-process limiter through a conversion to %s, which does not keep every rate", v.Type())
+					}
+					v = core.Forward(x)
+				}
 			}
 		}
 	})
